@@ -185,11 +185,14 @@ _MSG = re.compile(r"^(?P<file>[^:]+):(?P<line>\d+): (?P<kind>info|error): (?P<ms
 _CALL = re.compile(r"when calling (?P<call>c_\w+\([^()]*\))")
 
 
-def run_one(path: str, line: int, cap_s: float, env: dict) -> dict:
+def run_one(path: str, line: int, cap_s: float, env: dict, hard_stop: float | None = None) -> dict:
     t0 = time.time()
+    wall = cap_s * 2.5 + 60
+    if hard_stop is not None:
+        wall = max(15.0, min(wall, hard_stop - t0))
     cmd = [CROSSHAIR, "check", "--report_all", "--per_condition_timeout", str(cap_s), f"{path}:{line}"]
     try:
-        p = subprocess.run(cmd, capture_output=True, text=True, env=env, timeout=cap_s * 2.5 + 60,
+        p = subprocess.run(cmd, capture_output=True, text=True, env=env, timeout=wall,
                            cwd=os.path.dirname(path))
         out, err, rc = p.stdout, p.stderr, p.returncode
     except subprocess.TimeoutExpired as e:
@@ -241,9 +244,11 @@ def replay_call(tmpdir: str, call: str, env: dict) -> dict:
 class Runner:
     """runs all conditions in a background thread pool; `results()` joins"""
 
-    def __init__(self, tier: str, tmpdir: str, repo_src: str, cap_s: float, jobs: int, only=None, deadline=None):
+    def __init__(self, tier: str, tmpdir: str, repo_src: str, cap_s: float, jobs: int, only=None, deadline=None,
+                 hard_stop=None):
         self.tier, self.tmpdir, self.cap_s = tier, tmpdir, cap_s
         self.deadline = deadline  # conditions not started by then are not run (reported as inconclusive)
+        self.hard_stop = hard_stop  # running conditions are killed then (inconclusive)
         self.conds = [c for c in conditions(tier) if not only or any(o in c["name"] for o in only)]
         src, self.where = render(self.conds)
         self.path = os.path.join(tmpdir, "c07_conds.py")
@@ -268,7 +273,7 @@ class Runner:
         with self.slots:
             if self.deadline is not None and time.time() > self.deadline:
                 return {"status": "unknown", "msg": "not run (time budget)", "call": None, "wall": 0.0, "rc": None}
-            return run_one(self.path, line, self.cap_s, self.env)
+            return run_one(self.path, line, self.cap_s, self.env, self.hard_stop)
 
     def start(self):
         # twins and copy-independence first: they are cheap and must not be starved by the time budget
